@@ -120,6 +120,16 @@ impl Exec {
         self.models[a].has_resting_at(bid, price, t, except)
     }
 
+    /// The volume bounds of the valid histories: the volume outstanding on one side (orders New or Active, the one being
+    /// re-sized excepted) plus the new volume stays below 2^32, and so does the traded volume accumulated since the last
+    /// reset plus the new volume. Completed orders release their volume, so a history may submit and trade far more than
+    /// 2^32 in total.
+    fn vol_ok(&self, a: usize, bid: bool, vol: u32, except: Option<usize>) -> bool {
+        let m = &self.models[a];
+        let out: u64 = m.orders.iter().filter(|o| o.o.bid == bid && (o.o.status == NEW || o.o.status == ACTIVE) && Some(o.o.id) != except).map(|o| o.o.vol as u64).sum();
+        out + vol as u64 <= PMAX as u64 && m.trade_vol as u64 + vol as u64 <= PMAX as u64
+    }
+
     fn price_ok_create(&self, a: usize, price: Option<u32>, place: bool) -> bool {
         match price {
             None => true,
@@ -159,7 +169,7 @@ impl Exec {
                 if *a >= assets || *vol == 0 || !self.price_ok_create(*a, *price, place) {
                     return None;
                 }
-                if self.budget[*a] + *vol as u64 > PMAX as u64 {
+                if !self.vol_ok(*a, *bid, *vol, None) {
                     return None;
                 }
                 if place && self.cfg.discipline {
@@ -213,6 +223,14 @@ impl Exec {
 
     fn place_valid(&self, a: usize, id: usize) -> Option<()> {
         {
+            // cumulative traded volume (since the last reset) stays below 2^32: the order may trade its whole volume now
+            let m = &self.models[a];
+            let o = &m.orders[id];
+            if o.o.status == NEW && m.trade_vol as u64 + o.o.vol as u64 > PMAX as u64 {
+                return None;
+            }
+        }
+        {
             // a limit order created on an end of the price domain (C12 creation requests only) is never placed
             let o = &self.models[a].orders[id];
             if !o.is_market && (o.o.price == 0 || o.o.price == PMAX) {
@@ -242,7 +260,15 @@ impl Exec {
             }
         }
         if let Some(v) = vol {
-            if self.budget[a] + v as u64 > PMAX as u64 {
+            let bid = self.models[a].orders[id].o.bid;
+            if !self.vol_ok(a, bid, v, Some(id)) {
+                return None;
+            }
+        } else if price.is_some() {
+            // a re-price may trade the order's whole remaining volume
+            let m = &self.models[a];
+            let o = &m.orders[id];
+            if o.o.status == ACTIVE && m.trade_vol as u64 + o.o.vol as u64 > PMAX as u64 {
                 return None;
             }
         }
@@ -938,6 +964,8 @@ impl Exec {
                 let resting: u64 = self.prev[a].orders.iter().filter(|o| o.status == ACTIVE && o.bid != bid).map(|o| o.vol as u64).sum();
                 let _ = opp;
                 if resting > 0 && resting <= PMAX as u64 {
+                    // (each probe order on a fresh counter: the two sides together may hold more than 2^32)
+                    self.apply(&Prim::ResetTradeVol)?;
                     self.apply(&Prim::Create { a, bid, vol: resting as u32, trader: 9999, price: None, place: true })?;
                 }
             }
